@@ -6,7 +6,7 @@ from ..common import (body_by_name, callee_names, callgraph, div_by_nonzero_cons
 from ..facts import callee, op_const, op_local
 from ..flow import Flow, identity_through
 from .C02 import COMPONENT_PARSE, SHORTEN, conn_bodies
-from .C10 import GREETING, PARSE, READS, zero_read_switch
+from .C10 import GREETING, PARSE, READS, READS_EXT, zero_read_switch
 
 CONFIGS_QUICK = ["K1", "K3"]
 CONFIGS_THOROUGH = ["K1", "K3"]
@@ -67,6 +67,14 @@ def inventory_rule(rep, prog, cfg):
         if s.kind == "call:core::option::Option::unwrap" and panics.unwrap_guarded_by_test(s.body, s.bb):
             rep.ok("C09.inventory", inst, detail={"where": s.where, "discharged": "unwrap dominated by is_some edge"})
             continue
+        if s.kind.endswith("Index::index") or s.kind.endswith("IndexMut::index_mut"):
+            from .C02 import counted_slice
+            READS.bind(prog)
+            cs = counted_slice(s.body, s.body.blocks[s.bb]["t"], {n for n in READS if n not in READS_EXT})
+            if cs is not None:
+                rep.ok("C09.inventory", inst, detail={"where": s.where, "discharged": "slice bounded by the count `%s` that the read helper keeps <= the buffer length "
+                                                      "(both are handed to it by &mut; audited in the helper)" % s.body.locals[cs[1]]["name"]})
+                continue
         sl = panics.suffix_length_sub(prog, s)
         if sl is not None:
             rep.ok("C09.inventory", inst, detail={"where": s.where, "discharged": sl})
